@@ -94,7 +94,7 @@ class C15A(EngineBase):
         ctx = st.ctx
         sym = rng.choice(list(ctx.syms))
         kind = rng.choice(list(ctx.kinds))
-        nd = rng.choice([3, 3, 4])
+        nd = rng.choice([3, 3, 4, 4])
         d = rng.choice([1, 2, 2])
         pool = specs.CHARGE_POOL[sym]
         idx = []
@@ -106,9 +106,30 @@ class C15A(EngineBase):
         if len(secs) < 3:
             return None
         nsib = rng.choice([2, 2, 3])
-        drops = rng.sample(range(len(secs)), min(nsib, len(secs)))
         g1 = rng.sample(range(nd), 2)
-        mode = rng.choice(["fuse2", "tensordot", "reshape", "fuse2"])
+        mode = rng.choice(["fuse2", "tensordot", "reshape", "fuse2", "fuse3"])
+        # family members: each misses a different sector, or (self-inverse
+        # groups, where this keeps every sector valid) has one index of the
+        # first fused group pointing the other way
+        members = []
+        flip_ok = sym in ("Z2", "Z2Z2")
+        drops = rng.sample(range(len(secs)), min(nsib, len(secs)))
+        for k in drops:
+            v = dict(base)
+            if flip_ok and rng.random() < 0.4:
+                idx2 = copy.deepcopy(idx)
+                j = rng.choice(g1)
+                idx2[j]["dual"] = not idx2[j]["dual"]
+                v["indices"] = core.jsonable(idx2)
+                v["sectors"] = core.jsonable(secs)
+                tag = "sibling-dual"
+            else:
+                v["sectors"] = core.jsonable([x for i, x in enumerate(secs) if i != k])
+                tag = "sibling"
+            v["seed"] = rng.randrange(2**31)
+            members.append((tag, v))
+        if flip_ok and rng.random() < 0.5:
+            members.append(("sibling", dict(base, seed=rng.randrange(2**31))))
         out = []
         partner = None
         if mode == "tensordot":
@@ -124,18 +145,22 @@ class C15A(EngineBase):
                                  sparsity=0.0)
             partner = ctx.fresh()
             out.append({"op": "new", "in": [], "out": [partner], "a": {"spec": pspec}})
-        for k in drops:
-            v = dict(base)
-            v["sectors"] = core.jsonable([x for i, x in enumerate(secs) if i != k])
-            v["seed"] = rng.randrange(2**31)
+        for tag, v in members:
             n0 = ctx.fresh()
-            out.append({"op": "new", "in": [], "out": [n0], "a": {"spec": v}, "variant": "sibling"})
+            out.append({"op": "new", "in": [], "out": [n0], "a": {"spec": v}, "variant": tag})
             n1 = ctx.fresh()
             out.append({"op": "fuse", "in": [n0], "out": [n1], "a": {"groups": [list(g1)]}, "echo": "sibling"})
             n2 = ctx.fresh()
-            if mode == "fuse2":
+            if mode in ("fuse2", "fuse3"):
                 out.append({"op": "fuse", "in": [n1], "out": [n2],
                             "a": {"groups": [[0, 1]] if rng.random() < 0.7 else [[1, 0]]}, "echo": "sibling"})
+                if mode == "fuse3" and nd >= 4:
+                    # a third level: the plan now depends on structure two
+                    # levels below the index it fuses
+                    n2b = ctx.fresh()
+                    out.append({"op": "fuse", "in": [n2], "out": [n2b],
+                                "a": {"groups": [[0, 1]]}, "echo": "sibling"})
+                    n2 = n2b
             elif mode == "reshape":
                 out.append({"op": "reshape", "in": [n1], "out": [n2], "a": {"shape": [-1]}, "echo": "sibling"})
             else:
@@ -399,11 +424,16 @@ class C15B(EngineBase):
         depth = r.choice([1, 1, 2, 3])
         exitk = r.choice(["crash", "crash", "crash", "exception", "return", "break", "normal",
                           "generator_close", "decorator", "decorator_exception", "reuse_cm",
-                          "reenter_cm", "decorator_recursive"])
+                          "reenter_cm", "decorator_recursive", "invalid_mode"])
+        nest = [r.choice(MODES) for _ in range(depth)]
+        if exitk == "invalid_mode":
+            # a name that is not a mode: whoever raises (the block at entry or
+            # the first mode=None contraction inside it), the default survives
+            nest[r.randrange(depth)] = r.choice(["fuse", "block", "Auto", ""])
         return {
             "outer": r.choice(MODES),
             "outer_none": r.random() < 0.3,
-            "nest": [r.choice(MODES) for _ in range(depth)],
+            "nest": nest,
             "exit": exitk,
             "exit_at": r.randint(0, 3),
             "crash": r.random(),
@@ -676,6 +706,11 @@ class C15B(EngineBase):
             exc = e
         except HarnessError:
             raise
+        except (ValueError, KeyError, TypeError) as e:
+            # an invalid mode name refused by the library
+            if st.config["exit"] != "invalid_mode":
+                raise
+            exc = e
         final = core.sr.get_default_tensordot_mode()
         if final != st.config["outer"]:
             checks.append(("mode-restored-after-scenario",
